@@ -360,6 +360,9 @@ func writeEvidence(vdir string, prop *rules.Property, ctx *rules.Ctx, res checkR
 	if res.undecided != "" {
 		cov["undecided"] = res.undecided
 	}
+	if len(eng.Renames) > 0 {
+		cov["renames_undone"] = eng.Renames
+	}
 	if selfTest != nil {
 		cov["self_test"] = selfTest
 	}
